@@ -84,6 +84,12 @@ func genHpackTables(repo string) (string, error) {
 //	                            (END_HEADERS) is the one for which the remaining block is <= maxFrameSize (true: today's loops
 //	                            `if len(frag) > maxFrameSize {cut}` + `len(rest) == 0`, or a helper testing `<=`) or < maxFrameSize (false)
 //	h2_hpack_multi_update       hpack.go Decoder.Write: `d.firstField = false` in the parse loop is guarded by `if !sizeUpdate` (true) or unconditional (false)
+//	h2_hpack_indexed_strings_read hpack.go Decoder.parseFieldLiteral: the strings of a literal that will be inserted into the dynamic table are
+//	                            decoded also while emitting is switched off (readString's wantStr argument is `d.emitEnabled || it.indexed()`: true);
+//	                            a readString that decides from d.emitEnabled alone inserts EMPTY strings after a rejected field (false)
+//	h2_framer_no_cross_frame_state mhttp2.go: type MFramer has no field of its own (only the embedded Framer and api.Connection) and
+//	                            MFramer.ReadFrame / readMetaFrame assign only the per-frame fields of the embedded Framer (errDetail,
+//	                            lastFrame, lastHeaderStream): between two frames the reader carries nothing but the buffer (true)
 //	h2_goaway_last_is_max       mhttp2.go MServerConn.goAway: the last-stream-id written is sc.maxClientStreamID itself (true); anything else
 //	                            (a variable, a constant such as 1<<31-1 for NO_ERROR) is false
 //	h2_goaway_old_continue      mhttp2.go MServerConn.processHeaders: the inGoAway test that ignores HEADERS spares the streams at or below
@@ -640,6 +646,85 @@ func genH2Src(repo string) (string, error) {
 		atcmp = "false"
 	}
 	fmt.Fprintf(&b, "Definition h2_hpack_at_u64cmp := %s.\n", atcmp)
+	// --- hpack parseFieldLiteral / readString
+	idxStr := ""
+	if fd := FindFunc(hf, "Decoder", "parseFieldLiteral"); fd != nil {
+		idxStr = "false"
+		ast.Inspect(fd.Body, func(n ast.Node) bool {
+			be, isBe := n.(*ast.BinaryExpr)
+			if !isBe || be.Op != token.LOR {
+				return true
+			}
+			l, lok := be.X.(*ast.SelectorExpr)
+			c, cok := be.Y.(*ast.CallExpr)
+			if lok && cok && l.Sel.Name == "emitEnabled" {
+				if cs, isSel := c.Fun.(*ast.SelectorExpr); isSel && cs.Sel.Name == "indexed" {
+					idxStr = "true"
+				}
+			}
+			return true
+		})
+		if rs := FindFunc(hf, "Decoder", "readString"); rs == nil || rs.Type.Params.NumFields() != 2 {
+			idxStr = "false" // the decision is not passed in by the caller
+		}
+	}
+	if idxStr == "" {
+		ok = false
+		idxStr = "false"
+	}
+	fmt.Fprintf(&b, "Definition h2_hpack_indexed_strings_read := %s.\n", idxStr)
+	// --- MFramer: nothing carried across frames
+	stateless := ""
+	for _, d := range mf.Decls {
+		gd, isGen := d.(*ast.GenDecl)
+		if !isGen {
+			continue
+		}
+		for _, sp := range gd.Specs {
+			ts, isTs := sp.(*ast.TypeSpec)
+			if !isTs || ts.Name.Name != "MFramer" {
+				continue
+			}
+			if st, isSt := ts.Type.(*ast.StructType); isSt {
+				stateless = "true"
+				for _, f := range st.Fields.List {
+					if len(f.Names) != 0 { // a named field: state of its own
+						stateless = "false"
+					}
+				}
+			}
+		}
+	}
+	for _, fn := range []string{"ReadFrame", "readMetaFrame"} {
+		fd := FindFunc(mf, "MFramer", fn)
+		if fd == nil {
+			stateless = ""
+			break
+		}
+		ast.Inspect(fd.Body, func(n ast.Node) bool {
+			as, isAs := n.(*ast.AssignStmt)
+			if !isAs {
+				return true
+			}
+			for _, l := range as.Lhs {
+				if sel, isSel := l.(*ast.SelectorExpr); isSel {
+					if id, isId := sel.X.(*ast.Ident); isId && id.Name == "fr" {
+						switch sel.Sel.Name {
+						case "errDetail", "lastFrame", "lastHeaderStream":
+						default:
+							stateless = "false"
+						}
+					}
+				}
+			}
+			return true
+		})
+	}
+	if stateless == "" {
+		ok = false
+		stateless = "false"
+	}
+	fmt.Fprintf(&b, "Definition h2_framer_no_cross_frame_state := %s.\n", stateless)
 	// --- graceful GOAWAY
 	mentions := func(e ast.Node, name string) bool {
 		found := false
